@@ -122,6 +122,8 @@ def Builder.add (b : Builder) (rec : DocRec) (redetect : String) : Option Builde
   | none => none                       -- no repository: cannot happen after setRepository
   | some (r, ds) =>
     let lang := if rec.lang = "" then redetect else rec.lang
+    -- `addSymbols` dereferences every metadata pointer: a section without metadata (`symbols.data` = nil) panics
+    if rec.syms.any (·.isNone) then none else
     if !secsOk (contentLen rec.content) rec.secs then none else
     match indexOf? rec.subPath r.subPaths, encodeMask r.branches rec.branches with
     | some sub, some mask =>
